@@ -1147,6 +1147,7 @@ class SQLObject(with_metaclass(declarative.DeclarativeMeta, object)):
 
         # _creating is special, see _SO_setValue
         if self.sqlmeta._creating or self.sqlmeta.lazyUpdate:
+            toCache = {}
             for name, value in kw.items():
                 from_python = getattr(self, '_SO_from_python_%s' % name, None)
                 if from_python:
@@ -1157,6 +1158,9 @@ class SQLObject(with_metaclass(declarative.DeclarativeMeta, object)):
                 to_python = getattr(self, '_SO_to_python_%s' % name, None)
                 if to_python:
                     value = to_python(dbValue, self._SO_validatorState)
+                toCache[name] = value
+            # cache only once every value is validated
+            for name, value in toCache.items():
                 setattr(self, instanceName(name), value)
 
             self._SO_createValues.update(kw)
@@ -1189,6 +1193,7 @@ class SQLObject(with_metaclass(declarative.DeclarativeMeta, object)):
             # read the user's mind.  We'll combine everything
             # else into a single UPDATE, if necessary.
             toUpdate = {}
+            toCache = {}
             for name, value in kw.items():
                 from_python = getattr(self, '_SO_from_python_%s' % name, None)
                 if from_python:
@@ -1198,8 +1203,7 @@ class SQLObject(with_metaclass(declarative.DeclarativeMeta, object)):
                 to_python = getattr(self, '_SO_to_python_%s' % name, None)
                 if to_python:
                     value = to_python(dbValue, self._SO_validatorState)
-                if self.sqlmeta.cacheValues:
-                    setattr(self, instanceName(name), value)
+                toCache[name] = value
                 toUpdate[name] = dbValue
             for name, value in extra.items():
                 try:
@@ -1221,6 +1225,10 @@ class SQLObject(with_metaclass(declarative.DeclarativeMeta, object)):
                 args = [(self.sqlmeta.columns[name].dbName, value)
                         for name, value in toUpdate]
                 self._connection._SO_update(self, args)
+            # cache only once every value is validated and the row is written
+            if self.sqlmeta.cacheValues:
+                for name, value in toCache.items():
+                    setattr(self, instanceName(name), value)
         finally:
             self._SO_writeLock.release()
 
